@@ -25,7 +25,7 @@ import random
 from io import BytesIO
 from bitcoinlib.encoding import *
 # from bitcoinlib.config.opcodes import *
-from bitcoinlib.keys import HDKey, Key, deserialize_address, Address, sign, verify, Signature
+from bitcoinlib.keys import HDKey, Key, deserialize_address, Address, sign, verify, Signature, BKeyError
 from bitcoinlib.networks import Network
 from bitcoinlib.values import Value, value_to_satoshi
 from bitcoinlib.scripts import Script
@@ -1771,7 +1771,25 @@ class Transaction(object):
                     tid_keys.append(k)
             # If input does not contain any keys, try using provided keys
             if not self.inputs[tid].keys:
-                self.inputs[tid].keys = tid_keys
+                inp_keys = tid_keys
+                if tid_keys and self.inputs[tid].address and \
+                        self.inputs[tid].script_type in ['sig_pubkey', 'p2sh_p2wpkh']:
+                    # The input was created from an address: only the key that address belongs to can sign it
+                    try:
+                        address_hash = deserialize_address(self.inputs[tid].address)['public_key_hash_bytes']
+                    except (EncodingError, BKeyError):
+                        address_hash = None
+                    if address_hash:
+                        inp_keys = [k for k in tid_keys if address_hash in
+                                    [hash160(k.public_compressed_byte), hash160(k.public_uncompressed_byte),
+                                     hash160(b'\x00\x14' + hash160(k.public_compressed_byte))]]
+                        if not inp_keys:
+                            if fail_on_unknown_key:
+                                raise TransactionError("None of the provided keys belongs to address %s of input %d" %
+                                                       (self.inputs[tid].address, tid))
+                            continue
+                        tid_keys = inp_keys
+                self.inputs[tid].keys = inp_keys
                 self.inputs[tid].update_scripts(hash_type=hash_type)
             if self.inputs[tid].script_type == 'coinbase':
                 raise TransactionError("Can not sign coinbase transactions")
